@@ -126,3 +126,1193 @@ Theorem deterministic : forall fuel fixed p given segs r1 r2,
   session fuel fixed p given segs = r1 -> session fuel fixed p given segs = r2 -> r1 = r2.
 Proof. exact deterministic_proof. Qed.
 Print Assumptions deterministic.
+
+
+(* ==================================================================================================================
+   C19 extension (agent c19b).  New proof files: Proofs_C19_Words, Proofs_C19_SafeDefs, Proofs_C19_Safe .. Safe8,
+   Proofs_C19_Control, Proofs_C19_Reads.
+   ================================================================================================================== *)
+From AwkForth Require Import Proofs_C19_Words Proofs_C19_SafeDefs Proofs_C19_Safe Proofs_C19_Safe2 Proofs_C19_Safe3
+     Proofs_C19_Safe4 Proofs_C19_Safe5 Proofs_C19_Safe6 Proofs_C19_Safe7 Proofs_C19_Safe8.
+
+(* ---- (d) the documented semantics of the individual words: ONE table (`word_eff`, Proofs_C19_Words) of the stack
+   effect of each of the 34 stack / arithmetic / comparison / bitwise words of the vocabulary (all of builtin_words except
+   i j k; AwkwardForth has no `-rot`), and ONE theorem: on every state whose cells are in range, executing the word gives
+   `word_outcome` = the documented function of the top cells with wraparound at the cell width; fewer cells than the word
+   consumes = stack_underflow with nothing changed; a net push onto a full stack = stack_overflow with nothing changed;
+   a zero divisor = division_by_zero (`/` and `mod` have then dropped the divisor, `/mod` has not). *)
+Theorem word_spec : forall p e m x, 0 < p_w p -> Forall (in_cell (p_w p)) (m_stack m) ->
+  exec_builtin p e m (word_code x) = word_outcome p m x.
+Proof. exact word_spec_proof. Qed.
+Print Assumptions word_spec.
+
+(* the table is about the compiler's vocabulary: each name compiles to the opcode, and the table covers all of
+   builtin_words but i j k *)
+Theorem word_spec_names : forall x, lookup_string (bytes (word_name x)) builtin_words = Some (word_code x).
+Proof. exact word_names_compile. Qed.
+Print Assumptions word_spec_names.
+
+Theorem word_spec_covers_builtins :
+  map (fun x => (bytes (word_name x), word_code x)) all_words
+  = map (fun nc => (bytes (fst nc), snd nc)) (skipn 3 builtin_words).
+Proof. exact all_words_cover_builtins. Qed.
+Print Assumptions word_spec_covers_builtins.
+
+(* ---- (b) faults are errors, WITHOUT the `Fault` escape of faults_are_errors_partial, for programs accepted by the
+   static check `check_prog c p` (a boolean checker of the bytecode against a per-segment certificate c; `wf_prog p` =
+   the check with the inferred certificate `infer p`): begin / step / resume / run never end in a modelled undefined
+   behaviour other than F_count (repeat count * item size overflowing int64 in a `#` read), and leave a state (`api_ok`:
+   the invariant `inv` + every target depth below the current depth, unless an error is pending or the machine is not
+   ready) from which this holds again.  The check refuses exactly one thing that the compiler accepts: `exit` in a
+   segment that can run while a do-loop of an enclosing or calling segment is active.  call() is not covered. *)
+Theorem faults_are_errors_checked : forall c p e, check_prog c p = true -> zlen (e_inputs e) = zlen (p_ins p) ->
+  (forall m, zlen (m_vars m) = zlen (p_vars p) ->
+     exists m', api_begin p e m = Ok m' /\ api_ok c p e m') /\
+  (forall m, api_ok c p e m -> api_good c p e (api_step true p e m)) /\
+  (forall f m, api_ok c p e m -> api_good c p e (api_resume f true p e m)) /\
+  (forall f m, zlen (m_vars m) = zlen (p_vars p) -> api_good c p e (api_run f true p e m)).
+Proof. exact faults_are_errors_checked_proof. Qed.
+Print Assumptions faults_are_errors_checked.
+
+Theorem iter_step_no_fault : forall c p e k m, check_prog c p = true -> api_ok c p e m ->
+  match iter_step true p e k m with Ok m' => api_ok c p e m' | Fault x => x = F_count | OutOfFuel => True end.
+Proof. exact iter_step_no_fault_proof. Qed.
+Print Assumptions iter_step_no_fault.
+
+(* the invariant is preserved by every single instruction (the core of the proof, also usable on its own) *)
+Theorem instruction_preserves_invariant : forall c p e, check_prog c p = true ->
+  forall single m t ts, inv c p e m = true -> m_ready m = true -> m_targets m = t :: ts ->
+    depth m <> t -> segment_done p m = Ok false -> good c p e (exec_instr true single p e t m).
+Proof. exact exec_instr_good. Qed.
+Print Assumptions instruction_preserves_invariant.
+
+(* REFUTED without the exclusion: `exit` while a do-loop of a caller is active removes the caller's loop (its `i` then
+   reads below the do-stack: F_loopindex); `exit` inside a do-loop at the top level of its word leaves a stale do-stack
+   entry (the next word entered at that depth is run as a loop body; here its `exit` unwinds too far: F_exitdepth).
+   Both programs are refused by the check. *)
+Theorem faults_are_errors_exit_in_do_refuted :
+  (exists p, prog_exit_under_caller_loop = COk p /\ wf_prog p = false /\
+             api_run 1000 true p (mkEnv []) (init_machine p) = Fault F_loopindex) /\
+  (exists p, prog_exit_in_own_loop = COk p /\ wf_prog p = false /\
+             api_run 1000 true p (mkEnv []) (init_machine p) = Fault F_exitdepth).
+Proof. exact Proofs_C19_Safe8.faults_are_errors_exit_in_do_refuted. Qed.
+Print Assumptions faults_are_errors_exit_in_do_refuted.
+
+(* ---- (d) control-flow laws of the run loop (agent c19b-control, Proofs_C19_Control) *)
+From AwkForth Require Import Proofs_C19_Control.
+
+Theorem control_goes_trans : forall (p : prog) (e : env) (t : Z) (a b c : machine), goes p e t a b -> goes p e t b c -> goes p e t a c.
+Proof. exact goes_trans. Qed.
+Print Assumptions control_goes_trans.
+
+Theorem control_goes_ends : forall (p : prog) (e : env) (t : Z) (a b : machine) (r : result machine), goes p e t a b -> ends p e t b r -> ends p e t a r.
+Proof. exact goes_ends. Qed.
+Print Assumptions control_goes_ends.
+
+Theorem control_goes_run : forall (p : prog) (e : env) (t : Z) (a b : machine) (f : nat) (r : result machine),
+  goes p e t a b -> internal_run f true false p e t b = r -> r <> OutOfFuel -> exists f' : nat, internal_run f' true false p e t a = r.
+Proof. exact goes_run. Qed.
+Print Assumptions control_goes_run.
+
+Theorem control_ends_run : forall (p : prog) (e : env) (t : Z) (a : machine) (r : result machine),
+  ends p e t a r -> exists f0 : nat, forall f : nat, internal_run (f0 + f) true false p e t a = r.
+Proof. exact ends_run. Qed.
+Print Assumptions control_ends_run.
+
+Theorem control_goes_target : forall (p : prog) (e : env) (t : Z) (a b : machine), goes p e t a b -> depth b = t -> ends p e t a (Ok b).
+Proof. exact goes_target. Qed.
+Print Assumptions control_goes_target.
+
+Theorem call_enter : forall (p : prog) (e : env) (t : Z) (tg : list Z) (rd : bool) (er : Z) (d : data) (which ip : Z) (fr : list (Z * Z)) 
+  (dos : list (Z * Z * Z)) (sg len : Z),
+  code p which ip = Some (sg + BOUND_DICTIONARY) ->
+  seg_len p sg = Some len ->
+  free_at dos (zlen fr + 1) = true ->
+  t <= zlen fr ->
+  zlen fr + 1 <> p_rec_max p -> goes p e t (St tg rd er d ((which, ip) :: fr) dos) (St tg rd er d ((sg, 0) :: (which, ip + 1) :: fr) dos).
+Proof. exact call_enter_proof. Qed.
+Print Assumptions call_enter.
+
+Theorem call_recursion_limit : forall (p : prog) (e : env) (t : Z) (tg : list Z) (rd : bool) (er : Z) (d : data) (which ip : Z) (fr : list (Z * Z)) 
+  (dos : list (Z * Z * Z)) (sg len : Z),
+  code p which ip = Some (sg + BOUND_DICTIONARY) ->
+  seg_len p sg = Some len ->
+  free_at dos (zlen fr + 1) = true ->
+  t <= zlen fr ->
+  zlen fr + 1 = p_rec_max p -> ends p e t (St tg rd er d ((which, ip) :: fr) dos) (Ok (St tg rd E_recursion d ((which, ip + 1) :: fr) dos)).
+Proof. exact call_recursion_limit_proof. Qed.
+Print Assumptions call_recursion_limit.
+
+(* a call (user word / control segment) whose segment runs to its end continues after the call cell *)
+Theorem call_spec : forall (p : prog) (e : env) (t : Z) (tg : list Z) (rd : bool) (er : Z) (d d' : data) (which ip : Z) (fr : list (Z * Z))
+  (dos : list (Z * Z * Z)) (sg : Z),
+  code p which ip = Some (sg + BOUND_DICTIONARY) ->
+  free_at dos (zlen fr + 1) = true ->
+  t <= zlen fr ->
+  zlen fr + 1 <> p_rec_max p ->
+  seg_goes p e t tg rd er sg ((which, ip + 1) :: fr) dos d d' ->
+  goes p e t (St tg rd er d ((which, ip) :: fr) dos) (St tg rd er d' ((which, ip + 1) :: fr) dos).
+Proof. exact call_spec_proof. Qed.
+Print Assumptions call_spec.
+
+(* if..then = [CODE_IF; seg+66]: v<>0 runs the consequent, v=0 skips it; both continue at ip+2 *)
+Theorem if_then_spec : forall (p : prog) (e : env) (t : Z) (tg : list Z) (rd : bool) (er : Z) (d d' : data) (v : Z) (s : list Z) (which ip : Z) 
+  (fr : list (Z * Z)) (dos : list (Z * Z * Z)) (sg : Z),
+  code p which ip = Some CODE_IF ->
+  code p which (ip + 1) = Some (sg + BOUND_DICTIONARY) ->
+  free_at dos (zlen fr + 1) = true ->
+  t <= zlen fr ->
+  d_stack d = v :: s ->
+  (v <> 0 -> zlen fr + 1 <> p_rec_max p /\ seg_goes p e t tg rd er sg ((which, ip + 2) :: fr) dos (with_stack d s) d') ->
+  (v = 0 -> d' = with_stack d s) -> goes p e t (St tg rd er d ((which, ip) :: fr) dos) (St tg rd er d' ((which, ip + 2) :: fr) dos).
+Proof. exact if_then_spec_proof. Qed.
+Print Assumptions if_then_spec.
+
+Theorem if_underflow : forall (p : prog) (e : env) (t : Z) (tg : list Z) (rd : bool) (er : Z) (d : data) (which ip : Z) (fr : list (Z * Z)) 
+  (dos : list (Z * Z * Z)) (c : Z),
+  code p which ip = Some c ->
+  c = CODE_IF \/ c = CODE_IF_ELSE ->
+  free_at dos (zlen fr + 1) = true ->
+  t <= zlen fr -> d_stack d = [] -> ends p e t (St tg rd er d ((which, ip) :: fr) dos) (Ok (St tg rd E_underflow d ((which, ip + 1) :: fr) dos)).
+Proof. exact if_underflow_proof. Qed.
+Print Assumptions if_underflow.
+
+Theorem if_recursion_limit : forall (p : prog) (e : env) (t : Z) (tg : list Z) (rd : bool) (er : Z) (d : data) (v : Z) (s : list Z) (which ip : Z) 
+  (fr : list (Z * Z)) (dos : list (Z * Z * Z)) (sg len : Z),
+  code p which ip = Some CODE_IF ->
+  code p which (ip + 1) = Some (sg + BOUND_DICTIONARY) ->
+  seg_len p sg = Some len ->
+  free_at dos (zlen fr + 1) = true ->
+  t <= zlen fr ->
+  d_stack d = v :: s ->
+  v <> 0 ->
+  zlen fr + 1 = p_rec_max p ->
+  ends p e t (St tg rd er d ((which, ip) :: fr) dos) (Ok (St tg rd E_recursion (with_stack d s) ((which, ip + 2) :: fr) dos)).
+Proof. exact if_recursion_limit_proof. Qed.
+Print Assumptions if_recursion_limit.
+
+(* if..else..then = [CODE_IF_ELSE; s1+66; s2+66]: v<>0 runs s1, v=0 runs s2; both continue at ip+3 *)
+Theorem if_else_then_spec : forall (p : prog) (e : env) (t : Z) (tg : list Z) (rd : bool) (er : Z) (d d' : data) (v : Z) (s : list Z) (which ip : Z) 
+  (fr : list (Z * Z)) (dos : list (Z * Z * Z)) (s1 s2 : Z),
+  code p which ip = Some CODE_IF_ELSE ->
+  code p which (ip + 1) = Some (s1 + BOUND_DICTIONARY) ->
+  code p which (ip + 2) = Some (s2 + BOUND_DICTIONARY) ->
+  free_at dos (zlen fr + 1) = true ->
+  t <= zlen fr ->
+  zlen fr + 1 <> p_rec_max p ->
+  d_stack d = v :: s ->
+  seg_goes p e t tg rd er (if v =? 0 then s2 else s1) ((which, ip + 3) :: fr) dos (with_stack d s) d' ->
+  goes p e t (St tg rd er d ((which, ip) :: fr) dos) (St tg rd er d' ((which, ip + 3) :: fr) dos).
+Proof. exact if_else_then_spec_proof. Qed.
+Print Assumptions if_else_then_spec.
+
+Theorem if_else_recursion_limit : forall (p : prog) (e : env) (t : Z) (tg : list Z) (rd : bool) (er : Z) (d : data) (v : Z) (s : list Z) (which ip : Z) 
+  (fr : list (Z * Z)) (dos : list (Z * Z * Z)) (s1 s2 len1 len2 : Z),
+  code p which ip = Some CODE_IF_ELSE ->
+  code p which (ip + 1) = Some (s1 + BOUND_DICTIONARY) ->
+  code p which (ip + 2) = Some (s2 + BOUND_DICTIONARY) ->
+  seg_len p s1 = Some len1 ->
+  seg_len p s2 = Some len2 ->
+  free_at dos (zlen fr + 1) = true ->
+  t <= zlen fr ->
+  zlen fr + 1 = p_rec_max p ->
+  d_stack d = v :: s ->
+  ends p e t (St tg rd er d ((which, ip) :: fr) dos) (Ok (St tg rd E_recursion (with_stack d s) ((which, ip + 3) :: fr) dos)).
+Proof. exact if_else_recursion_limit_proof. Qed.
+Print Assumptions if_else_recursion_limit.
+
+(* do..loop / do..+loop with the passes described by the relation do_iter (test stop<=i first) *)
+Theorem do_loop_general : forall (p : prog) (e : env) (t : Z) (tg : list Z) (rd : bool) (er : Z) (is_step : bool) (which ip : Z) (fr : list (Z * Z))
+  (dos0 : list (Z * Z * Z)) (body stp : Z),
+  code p which ip = Some (do_code is_step) ->
+  code p which (ip + 1) = Some (body + BOUND_DICTIONARY) ->
+  free_at dos0 (zlen fr + 1) = true ->
+  t <= zlen fr ->
+  forall (d d' : data) (start : Z) (s : list Z),
+  d_stack d = start :: stp :: s ->
+  zlen dos0 <> p_rec_max p ->
+  (start < stp -> zlen fr + 1 <> p_rec_max p) ->
+  do_iter is_step
+  (fun (i : Z) (a b : data) => seg_goes p e t tg rd er body ((which, ip + 1) :: fr) ((do_mark is_step (zlen fr + 1), stp, i) :: dos0) a b) stp
+  start (with_stack d s) d' -> goes p e t (St tg rd er d ((which, ip) :: fr) dos0) (St tg rd er d' ((which, ip + 2) :: fr) dos0).
+Proof. exact do_loop_general_proof. Qed.
+Print Assumptions do_loop_general.
+
+(* n m do BODY loop: max 0 (n-m) passes with i = m..n-1 (body = function B of index and data, invariant Inv) *)
+Theorem do_loop_iterates : forall (p : prog) (e : env) (t : Z) (tg : list Z) (rd : bool) (er which ip : Z) (fr : list (Z * Z)) (dos0 : list (Z * Z * Z)) 
+  (body : Z) (B : Z -> data -> data) (Inv : Z -> data -> Prop) (n m : Z) (s : list Z) (d : data),
+  code p which ip = Some CODE_DO ->
+  code p which (ip + 1) = Some (body + BOUND_DICTIONARY) ->
+  free_at dos0 (zlen fr + 1) = true ->
+  t <= zlen fr ->
+  zlen dos0 <> p_rec_max p ->
+  (m < n -> zlen fr + 1 <> p_rec_max p /\ - 2 ^ 63 <= m /\ n < 2 ^ 63) ->
+  d_stack d = m :: n :: s ->
+  Inv m (with_stack d s) ->
+  (forall (i : Z) (di : data),
+  m <= i < n ->
+  Inv i di -> seg_goes p e t tg rd er body ((which, ip + 1) :: fr) ((zlen fr + 1, n, i) :: dos0) di (B i di) /\ Inv (i + 1) (B i di)) ->
+  goes p e t (St tg rd er d ((which, ip) :: fr) dos0)
+  (St tg rd er (iter_from B m (Z.to_nat (n - m)) (with_stack d s)) ((which, ip + 2) :: fr) dos0) /\
+  Inv (Z.max m n) (iter_from B m (Z.to_nat (n - m)) (with_stack d s)).
+Proof. exact do_loop_iterates_proof. Qed.
+Print Assumptions do_loop_iterates.
+
+(* stop <= start: no pass at all, for loop and +loop, whatever the step (deviation from Forth-2012 for negative steps) *)
+Theorem do_loop_no_iteration : forall (p : prog) (e : env) (t : Z) (tg : list Z) (rd : bool) (er : Z) (is_step : bool) (which ip : Z) (fr : list (Z * Z))
+  (dos0 : list (Z * Z * Z)) (body start stp : Z) (s : list Z) (d : data),
+  code p which ip = Some (do_code is_step) ->
+  code p which (ip + 1) = Some (body + BOUND_DICTIONARY) ->
+  free_at dos0 (zlen fr + 1) = true ->
+  t <= zlen fr ->
+  zlen dos0 <> p_rec_max p ->
+  d_stack d = start :: stp :: s ->
+  stp <= start -> goes p e t (St tg rd er d ((which, ip) :: fr) dos0) (St tg rd er (with_stack d s) ((which, ip + 2) :: fr) dos0).
+Proof. exact do_loop_no_iteration_proof. Qed.
+Print Assumptions do_loop_no_iteration.
+
+(* do..+loop exactly as run: function ploop (test stop<=i before every pass, step popped and added with 64-bit wrap) *)
+Theorem plus_loop_iterates : forall (p : prog) (e : env) (t : Z) (tg : list Z) (rd : bool) (er which ip : Z) (fr : list (Z * Z)) (dos0 : list (Z * Z * Z)) 
+  (body : Z) (B : Z -> data -> data) (Inv : Z -> data -> Prop) (n m : Z) (s : list Z) (d : data) (fuel : nat) (d' : data),
+  code p which ip = Some CODE_DO_STEP ->
+  code p which (ip + 1) = Some (body + BOUND_DICTIONARY) ->
+  free_at dos0 (zlen fr + 1) = true ->
+  t <= zlen fr ->
+  zlen dos0 <> p_rec_max p ->
+  (m < n -> zlen fr + 1 <> p_rec_max p) ->
+  d_stack d = m :: n :: s ->
+  Inv m (with_stack d s) ->
+  (forall (i : Z) (di : data),
+  i < n ->
+  Inv i di ->
+  seg_goes p e t tg rd er body ((which, ip + 1) :: fr) ((- (zlen fr + 1) - 1, n, i) :: dos0) di (B i di) /\
+  (forall (v : Z) (s' : list Z), d_stack (B i di) = v :: s' -> Inv (wrap 64 (i + v)) (with_stack (B i di) s'))) ->
+  ploop B n m fuel (with_stack d s) = Some d' ->
+  goes p e t (St tg rd er d ((which, ip) :: fr) dos0) (St tg rd er d' ((which, ip + 2) :: fr) dos0).
+Proof. exact plus_loop_iterates_proof. Qed.
+Print Assumptions plus_loop_iterates.
+
+Theorem do_underflow : forall (p : prog) (e : env) (t : Z) (tg : list Z) (rd : bool) (er : Z) (is_step : bool) (which ip : Z) (fr : list (Z * Z))
+  (dos0 : list (Z * Z * Z)) (d : data),
+  code p which ip = Some (do_code is_step) ->
+  free_at dos0 (zlen fr + 1) = true ->
+  t <= zlen fr ->
+  (length (d_stack d) < 2)%nat -> ends p e t (St tg rd er d ((which, ip) :: fr) dos0) (Ok (St tg rd E_underflow d ((which, ip + 1) :: fr) dos0)).
+Proof. exact do_underflow_proof. Qed.
+Print Assumptions do_underflow.
+
+Theorem do_recursion_limit : forall (p : prog) (e : env) (t : Z) (tg : list Z) (rd : bool) (er : Z) (is_step : bool) (which ip : Z) (fr : list (Z * Z))
+  (dos0 : list (Z * Z * Z)) (d : data) (start stp : Z) (s : list Z),
+  code p which ip = Some (do_code is_step) ->
+  free_at dos0 (zlen fr + 1) = true ->
+  t <= zlen fr ->
+  d_stack d = start :: stp :: s ->
+  zlen dos0 = p_rec_max p ->
+  ends p e t (St tg rd er d ((which, ip) :: fr) dos0) (Ok (St tg rd E_recursion (with_stack d s) ((which, ip + 1) :: fr) dos0)).
+Proof. exact do_recursion_limit_proof. Qed.
+Print Assumptions do_recursion_limit.
+
+Theorem do_body_recursion_limit : forall (p : prog) (e : env) (t : Z) (tg : list Z) (rd : bool) (er : Z) (is_step : bool) (which ip : Z) (fr : list (Z * Z))
+  (dos0 : list (Z * Z * Z)) (body len : Z) (d : data) (start stp : Z) (s : list Z),
+  code p which ip = Some (do_code is_step) ->
+  code p which (ip + 1) = Some (body + BOUND_DICTIONARY) ->
+  seg_len p body = Some len ->
+  free_at dos0 (zlen fr + 1) = true ->
+  t <= zlen fr ->
+  d_stack d = start :: stp :: s ->
+  zlen dos0 <> p_rec_max p ->
+  start < stp ->
+  zlen fr + 1 = p_rec_max p ->
+  ends p e t (St tg rd er d ((which, ip) :: fr) dos0)
+  (Ok (St tg rd E_recursion (with_stack d s) ((which, ip + 1) :: fr) ((do_mark is_step (zlen fr + 1), stp, start) :: dos0))).
+Proof. exact do_body_recursion_limit_proof. Qed.
+Print Assumptions do_body_recursion_limit.
+
+Theorem plus_loop_underflow : forall (p : prog) (e : env) (t : Z) (tg : list Z) (rd : bool) (er which ip : Z) (fr : list (Z * Z)) (dos0 : list (Z * Z * Z)) 
+  (body : Z) (d d1 : data) (start stp : Z) (s : list Z),
+  code p which ip = Some CODE_DO_STEP ->
+  code p which (ip + 1) = Some (body + BOUND_DICTIONARY) ->
+  free_at dos0 (zlen fr + 1) = true ->
+  t <= zlen fr ->
+  d_stack d = start :: stp :: s ->
+  zlen dos0 <> p_rec_max p ->
+  start < stp ->
+  zlen fr + 1 <> p_rec_max p ->
+  seg_goes p e t tg rd er body ((which, ip + 1) :: fr) ((- (zlen fr + 1) - 1, stp, start) :: dos0) (with_stack d s) d1 ->
+  d_stack d1 = [] ->
+  ends p e t (St tg rd er d ((which, ip) :: fr) dos0)
+  (Ok (St tg rd E_underflow d1 ((which, ip + 1) :: fr) ((- (zlen fr + 1) - 1, stp, start) :: dos0))).
+Proof. exact plus_loop_underflow_proof. Qed.
+Print Assumptions plus_loop_underflow.
+
+Theorem until_underflow : forall (p : prog) (e : env) (t : Z) (tg : list Z) (rd : bool) (er which ip : Z) (fr : list (Z * Z)) (dos : list (Z * Z * Z)),
+  code p which (ip + 1) = Some CODE_UNTIL ->
+  free_at dos (zlen fr + 1) = true ->
+  t <= zlen fr ->
+  forall d : data,
+  d_stack d = [] -> ends p e t (St tg rd er d ((which, ip + 1) :: fr) dos) (Ok (St tg rd E_underflow d ((which, ip + 2) :: fr) dos)).
+Proof. exact until_underflow_proof. Qed.
+Print Assumptions until_underflow.
+
+Theorem begin_until_general : forall (p : prog) (e : env) (t : Z) (tg : list Z) (rd : bool) (er which ip : Z) (fr : list (Z * Z)) (dos : list (Z * Z * Z)) (body : Z),
+  code p which ip = Some (body + BOUND_DICTIONARY) ->
+  code p which (ip + 1) = Some CODE_UNTIL ->
+  free_at dos (zlen fr + 1) = true ->
+  t <= zlen fr ->
+  forall d d' : data,
+  zlen fr + 1 <> p_rec_max p ->
+  until_iter (seg_goes p e t tg rd er body ((which, ip + 1) :: fr) dos) d d' ->
+  goes p e t (St tg rd er d ((which, ip) :: fr) dos) (St tg rd er d' ((which, ip + 2) :: fr) dos).
+Proof. exact begin_until_general_proof. Qed.
+Print Assumptions begin_until_general.
+
+(* begin BODY until: function until_loop (body, pop flag, repeat while zero) *)
+Theorem begin_until : forall (p : prog) (e : env) (t : Z) (tg : list Z) (rd : bool) (er which ip : Z) (fr : list (Z * Z)) (dos : list (Z * Z * Z)) 
+  (body : Z) (B : data -> data) (Inv : data -> Prop) (fuel : nat) (d d' : data),
+  code p which ip = Some (body + BOUND_DICTIONARY) ->
+  code p which (ip + 1) = Some CODE_UNTIL ->
+  free_at dos (zlen fr + 1) = true ->
+  t <= zlen fr ->
+  zlen fr + 1 <> p_rec_max p ->
+  Inv d ->
+  (forall di : data,
+  Inv di ->
+  seg_goes p e t tg rd er body ((which, ip + 1) :: fr) dos di (B di) /\
+  (forall s' : list Z, d_stack (B di) = 0 :: s' -> Inv (with_stack (B di) s'))) ->
+  until_loop B fuel d = Some d' -> goes p e t (St tg rd er d ((which, ip) :: fr) dos) (St tg rd er d' ((which, ip + 2) :: fr) dos).
+Proof. exact begin_until_proof. Qed.
+Print Assumptions begin_until.
+
+Theorem while_underflow : forall (p : prog) (e : env) (t : Z) (tg : list Z) (rd : bool) (er which ip : Z) (fr : list (Z * Z)) (dos : list (Z * Z * Z)),
+  code p which (ip + 1) = Some CODE_WHILE ->
+  free_at dos (zlen fr + 1) = true ->
+  t <= zlen fr ->
+  forall d : data,
+  d_stack d = [] -> ends p e t (St tg rd er d ((which, ip + 1) :: fr) dos) (Ok (St tg rd E_underflow d ((which, ip + 2) :: fr) dos)).
+Proof. exact while_underflow_proof. Qed.
+Print Assumptions while_underflow.
+
+Theorem begin_while_repeat_general : forall (p : prog) (e : env) (t : Z) (tg : list Z) (rd : bool) (er which ip : Z) (fr : list (Z * Z)) (dos : list (Z * Z * Z)) (pre post : Z),
+  code p which ip = Some (pre + BOUND_DICTIONARY) ->
+  code p which (ip + 1) = Some CODE_WHILE ->
+  code p which (ip + 2) = Some (post + BOUND_DICTIONARY) ->
+  free_at dos (zlen fr + 1) = true ->
+  t <= zlen fr ->
+  zlen fr + 1 <> p_rec_max p ->
+  forall d d' : data,
+  while_iter (seg_goes p e t tg rd er pre ((which, ip + 1) :: fr) dos) (seg_goes p e t tg rd er post ((which, ip) :: fr) dos) d d' ->
+  goes p e t (St tg rd er d ((which, ip) :: fr) dos) (St tg rd er d' ((which, ip + 3) :: fr) dos).
+Proof. exact begin_while_repeat_general_proof. Qed.
+Print Assumptions begin_while_repeat_general.
+
+(* begin PRE while POST repeat: function while_loop *)
+Theorem begin_while_repeat : forall (p : prog) (e : env) (t : Z) (tg : list Z) (rd : bool) (er which ip : Z) (fr : list (Z * Z)) (dos : list (Z * Z * Z)) 
+  (pre post : Z) (Pre Post : data -> data) (Inv : data -> Prop) (fuel : nat) (d d' : data),
+  code p which ip = Some (pre + BOUND_DICTIONARY) ->
+  code p which (ip + 1) = Some CODE_WHILE ->
+  code p which (ip + 2) = Some (post + BOUND_DICTIONARY) ->
+  free_at dos (zlen fr + 1) = true ->
+  t <= zlen fr ->
+  zlen fr + 1 <> p_rec_max p ->
+  Inv d ->
+  (forall di : data,
+  Inv di ->
+  seg_goes p e t tg rd er pre ((which, ip + 1) :: fr) dos di (Pre di) /\
+  (forall (v : Z) (s' : list Z),
+  d_stack (Pre di) = v :: s' ->
+  v <> 0 ->
+  seg_goes p e t tg rd er post ((which, ip) :: fr) dos (with_stack (Pre di) s') (Post (with_stack (Pre di) s')) /\
+  Inv (Post (with_stack (Pre di) s')))) ->
+  while_loop Pre Post fuel d = Some d' -> goes p e t (St tg rd er d ((which, ip) :: fr) dos) (St tg rd er d' ((which, ip + 3) :: fr) dos).
+Proof. exact begin_while_repeat_proof. Qed.
+Print Assumptions begin_while_repeat.
+
+Theorem begin_again_pass : forall (p : prog) (e : env) (t : Z) (tg : list Z) (rd : bool) (er which ip : Z) (fr : list (Z * Z)) (dos : list (Z * Z * Z)) (body : Z),
+  code p which ip = Some (body + BOUND_DICTIONARY) ->
+  code p which (ip + 1) = Some CODE_AGAIN ->
+  free_at dos (zlen fr + 1) = true ->
+  t <= zlen fr ->
+  zlen fr + 1 <> p_rec_max p ->
+  forall d d' : data,
+  seg_goes p e t tg rd er body ((which, ip + 1) :: fr) dos d d' ->
+  goes p e t (St tg rd er d ((which, ip) :: fr) dos) (St tg rd er d' ((which, ip) :: fr) dos).
+Proof. exact begin_again_pass_proof. Qed.
+Print Assumptions begin_again_pass.
+
+Theorem begin_again_n : forall (p : prog) (e : env) (t : Z) (tg : list Z) (rd : bool) (er which ip : Z) (fr : list (Z * Z)) (dos : list (Z * Z * Z)) (body : Z),
+  code p which ip = Some (body + BOUND_DICTIONARY) ->
+  code p which (ip + 1) = Some CODE_AGAIN ->
+  free_at dos (zlen fr + 1) = true ->
+  t <= zlen fr ->
+  zlen fr + 1 <> p_rec_max p ->
+  forall (B : data -> data) (Inv : nat -> data -> Prop) (n : nat),
+  (forall (j : nat) (di : data),
+  (j < n)%nat -> Inv j di -> seg_goes p e t tg rd er body ((which, ip + 1) :: fr) dos di (B di) /\ Inv (S j) (B di)) ->
+  forall d : data,
+  Inv 0%nat d ->
+  goes p e t (St tg rd er d ((which, ip) :: fr) dos) (St tg rd er (Nat.iter n B d) ((which, ip) :: fr) dos) /\ Inv n (Nat.iter n B d).
+Proof. exact begin_again_n_proof. Qed.
+Print Assumptions begin_again_n.
+
+(* begin..again whose body always runs to its end never ends: left only by exit, halt or an error *)
+Theorem begin_again_diverges : forall (p : prog) (e : env) (t : Z) (tg : list Z) (rd : bool) (er which ip : Z) (fr : list (Z * Z)) (dos : list (Z * Z * Z)) (body : Z),
+  code p which ip = Some (body + BOUND_DICTIONARY) ->
+  code p which (ip + 1) = Some CODE_AGAIN ->
+  free_at dos (zlen fr + 1) = true ->
+  t <= zlen fr ->
+  zlen fr + 1 <> p_rec_max p ->
+  forall (B : data -> data) (Inv : data -> Prop),
+  (forall di : data, Inv di -> seg_goes p e t tg rd er body ((which, ip + 1) :: fr) dos di (B di) /\ Inv (B di)) ->
+  forall (f : nat) (d : data), Inv d -> internal_run f true false p e t (St tg rd er d ((which, ip) :: fr) dos) = OutOfFuel.
+Proof. exact begin_again_diverges_proof. Qed.
+Print Assumptions begin_again_diverges.
+
+(* exit with exitdepth k leaves k+1 frames; the do-stack is cut by drop_dos (known finding when do-loops are active) *)
+Theorem exit_spec : forall (p : prog) (e : env) (t : Z) (tg : list Z) (rd : bool) (er : Z) (d : data) (which ip : Z) (fr : list (Z * Z)) 
+  (dos : list (Z * Z * Z)) (k : Z) (dos' : list (Z * Z * Z)),
+  code p which ip = Some CODE_EXIT ->
+  code p which (ip + 1) = Some k ->
+  free_at dos (zlen fr + 1) = true ->
+  t <= zlen fr ->
+  0 <= k <= zlen fr ->
+  drop_dos dos (zlen fr + 1 - k) = dos' ->
+  free_at dos' (zlen fr - k) = true -> goes p e t (St tg rd er d ((which, ip) :: fr) dos) (St tg rd er d (skipn (Z.to_nat k) fr) dos').
+Proof. exact exit_spec_proof. Qed.
+Print Assumptions exit_spec.
+
+Theorem halt_spec : forall (p : prog) (e : env) (t : Z) (tg : list Z) (rd : bool) (er : Z) (d : data) (which ip : Z) (fr : list (Z * Z)) (dos : list (Z * Z * Z)),
+  code p which ip = Some CODE_HALT ->
+  free_at dos (zlen fr + 1) = true ->
+  t <= zlen fr ->
+  ends p e t (St tg rd er d ((which, ip) :: fr) dos) (Ok (St match rev tg with
+  | [] => []
+  | x :: _ => [x]
+  end false E_user_halt d [] [])).
+Proof. exact halt_spec_proof. Qed.
+Print Assumptions halt_spec.
+
+(* i j k (n = 0 1 2) push the counter of the n-th do-stack entry from the top *)
+Theorem loop_index_spec : forall (p : prog) (e : env) (t : Z) (tg : list Z) (rd : bool) (er : Z) (d : data) (which ip : Z) (fr : list (Z * Z)) 
+  (dos : list (Z * Z * Z)) (n : nat) (dd ds i : Z),
+  (n < 3)%nat ->
+  code p which ip = Some (CODE_I + Z.of_nat n) ->
+  free_at dos (zlen fr + 1) = true ->
+  t <= zlen fr ->
+  nth_error dos n = Some (dd, ds, i) ->
+  zlen (d_stack d) <> p_stack_max p ->
+  goes p e t (St tg rd er d ((which, ip) :: fr) dos) (St tg rd er (with_stack d (wrap (p_w p) i :: d_stack d)) ((which, ip + 1) :: fr) dos).
+Proof. exact loop_index_spec_proof. Qed.
+Print Assumptions loop_index_spec.
+
+Theorem loop_index_overflow : forall (p : prog) (e : env) (t : Z) (tg : list Z) (rd : bool) (er : Z) (d : data) (which ip : Z) (fr : list (Z * Z)) 
+  (dos : list (Z * Z * Z)) (n : nat),
+  (n < 3)%nat ->
+  code p which ip = Some (CODE_I + Z.of_nat n) ->
+  free_at dos (zlen fr + 1) = true ->
+  t <= zlen fr ->
+  zlen (d_stack d) = p_stack_max p ->
+  ends p e t (St tg rd er d ((which, ip) :: fr) dos) (Ok (St tg rd E_overflow d ((which, ip + 1) :: fr) dos)).
+Proof. exact loop_index_overflow_proof. Qed.
+Print Assumptions loop_index_overflow.
+
+Theorem loop_index_fault : forall (p : prog) (e : env) (t : Z) (tg : list Z) (rd : bool) (er : Z) (d : data) (which ip : Z) (fr : list (Z * Z)) 
+  (dos : list (Z * Z * Z)) (n : nat),
+  (n < 3)%nat ->
+  code p which ip = Some (CODE_I + Z.of_nat n) ->
+  free_at dos (zlen fr + 1) = true ->
+  t <= zlen fr ->
+  zlen (d_stack d) <> p_stack_max p -> nth_error dos n = None -> ends p e t (St tg rd er d ((which, ip) :: fr) dos) (Fault F_loopindex).
+Proof. exact loop_index_fault_proof. Qed.
+Print Assumptions loop_index_fault.
+
+Theorem ex_do_loop : compile 64 64 16
+  (bytes
+  (String.String (Ascii.Ascii true false false false true true false false)
+  (String.String (Ascii.Ascii false false false false true true false false)
+  (String.String (Ascii.Ascii false false false false false true false false)
+  (String.String (Ascii.Ascii false false false false true true false false)
+  (String.String (Ascii.Ascii false false false false false true false false)
+  (String.String (Ascii.Ascii false false true false false true true false)
+  (String.String (Ascii.Ascii true true true true false true true false)
+  (String.String (Ascii.Ascii false false false false false true false false)
+  (String.String (Ascii.Ascii true false false true false true true false)
+  (String.String (Ascii.Ascii false false false false false true false false)
+  (String.String (Ascii.Ascii false false true true false true true false)
+  (String.String (Ascii.Ascii true true true true false true true false)
+  (String.String (Ascii.Ascii true true true true false true true false)
+  (String.String (Ascii.Ascii false false false false true true true false) String.EmptyString))))))))))))))) =
+  COk p_do /\
+  api_begin p_do {| e_inputs := [] |} (init_machine p_do) = Ok begun /\
+  ends p_do {| e_inputs := [] |} 0 begun (Ok (finished [9; 8; 7; 6; 5; 4; 3; 2; 1; 0])) /\
+  api_run 100 true p_do {| e_inputs := [] |} (init_machine p_do) = Ok (St [] true 0 (d_of [9; 8; 7; 6; 5; 4; 3; 2; 1; 0]) [] []).
+Proof. exact ex_do_loop_proof. Qed.
+Print Assumptions ex_do_loop.
+
+Theorem ex_nested_do_loops : compile 64 64 16
+  (bytes
+  (String.String (Ascii.Ascii false true false false true true false false)
+  (String.String (Ascii.Ascii false false false false false true false false)
+  (String.String (Ascii.Ascii false false false false true true false false)
+  (String.String (Ascii.Ascii false false false false false true false false)
+  (String.String (Ascii.Ascii false false true false false true true false)
+  (String.String (Ascii.Ascii true true true true false true true false)
+  (String.String (Ascii.Ascii false false false false false true false false)
+  (String.String (Ascii.Ascii true true false false true true false false)
+  (String.String (Ascii.Ascii false false false false false true false false)
+  (String.String (Ascii.Ascii false false false false true true false false)
+  (String.String (Ascii.Ascii false false false false false true false false)
+  (String.String (Ascii.Ascii false false true false false true true false)
+  (String.String (Ascii.Ascii true true true true false true true false)
+  (String.String (Ascii.Ascii false false false false false true false false)
+  (String.String (Ascii.Ascii true false false true false true true false)
+  (String.String (Ascii.Ascii false false false false false true false false)
+  (String.String (Ascii.Ascii false true false true false true true false)
+  (String.String (Ascii.Ascii false false false false false true false false)
+  (String.String (Ascii.Ascii true true false true false true false false)
+  (String.String (Ascii.Ascii false false false false false true false false)
+  (String.String (Ascii.Ascii false false true true false true true false)
+  (String.String (Ascii.Ascii true true true true false true true false)
+  (String.String (Ascii.Ascii true true true true false true true false)
+  (String.String
+  (Ascii.Ascii false false false false true true true false)
+  (String.String
+  (Ascii.Ascii false false false false false true false false)
+  (String.String
+  (Ascii.Ascii false false true true false true true false)
+  (String.String
+  (Ascii.Ascii true true true true false true true false)
+  (String.String
+  (Ascii.Ascii true true true true false true true
+  false)
+  (String.String
+  (Ascii.Ascii false false false false true true
+  true false) String.EmptyString)))))))))))))))))))))))))))))) =
+  COk p_nested /\
+  ends p_nested {| e_inputs := [] |} 0 begun (Ok (finished [3; 2; 1; 2; 1; 0])) /\
+  api_run 100 true p_nested {| e_inputs := [] |} (init_machine p_nested) = Ok (St [] true 0 (d_of [3; 2; 1; 2; 1; 0]) [] []).
+Proof. exact ex_nested_do_loops_proof. Qed.
+Print Assumptions ex_nested_do_loops.
+
+Theorem ex_plus_loop : compile 64 64 16
+  (bytes
+  (String.String (Ascii.Ascii true false false false true true false false)
+  (String.String (Ascii.Ascii false false false false true true false false)
+  (String.String (Ascii.Ascii false false false false false true false false)
+  (String.String (Ascii.Ascii false false false false true true false false)
+  (String.String (Ascii.Ascii false false false false false true false false)
+  (String.String (Ascii.Ascii false false true false false true true false)
+  (String.String (Ascii.Ascii true true true true false true true false)
+  (String.String (Ascii.Ascii false false false false false true false false)
+  (String.String (Ascii.Ascii true false false true false true true false)
+  (String.String (Ascii.Ascii false false false false false true false false)
+  (String.String (Ascii.Ascii true true false false true true false false)
+  (String.String (Ascii.Ascii false false false false false true false false)
+  (String.String (Ascii.Ascii true true false true false true false false)
+  (String.String (Ascii.Ascii false false true true false true true false)
+  (String.String (Ascii.Ascii true true true true false true true false)
+  (String.String (Ascii.Ascii true true true true false true true false)
+  (String.String (Ascii.Ascii false false false false true true true false)
+  String.EmptyString)))))))))))))))))) = COk p_ploop /\
+  ends p_ploop {| e_inputs := [] |} 0 begun (Ok (finished [9; 6; 3; 0])) /\
+  api_run 100 true p_ploop {| e_inputs := [] |} (init_machine p_ploop) = Ok (St [] true 0 (d_of [9; 6; 3; 0]) [] []).
+Proof. exact ex_plus_loop_proof. Qed.
+Print Assumptions ex_plus_loop.
+
+Theorem ex_begin_until : compile 64 64 16
+  (bytes
+  (String.String (Ascii.Ascii false false false false true true false false)
+  (String.String (Ascii.Ascii false false false false false true false false)
+  (String.String (Ascii.Ascii false true false false false true true false)
+  (String.String (Ascii.Ascii true false true false false true true false)
+  (String.String (Ascii.Ascii true true true false false true true false)
+  (String.String (Ascii.Ascii true false false true false true true false)
+  (String.String (Ascii.Ascii false true true true false true true false)
+  (String.String (Ascii.Ascii false false false false false true false false)
+  (String.String (Ascii.Ascii true false false false true true false false)
+  (String.String (Ascii.Ascii true true false true false true false false)
+  (String.String (Ascii.Ascii false false false false false true false false)
+  (String.String (Ascii.Ascii false false true false false true true false)
+  (String.String (Ascii.Ascii true false true false true true true false)
+  (String.String (Ascii.Ascii false false false false true true true false)
+  (String.String (Ascii.Ascii false false false false false true false false)
+  (String.String (Ascii.Ascii true false true false true true false false)
+  (String.String (Ascii.Ascii false false false false false true false false)
+  (String.String (Ascii.Ascii true false true true true true false false)
+  (String.String (Ascii.Ascii false false false false false true false false)
+  (String.String (Ascii.Ascii true false true false true true true false)
+  (String.String (Ascii.Ascii false true true true false true true false)
+  (String.String (Ascii.Ascii false false true false true true true false)
+  (String.String
+  (Ascii.Ascii true false false true false true true false)
+  (String.String
+  (Ascii.Ascii false false true true false true true false)
+  String.EmptyString))))))))))))))))))))))))) =
+  COk p_until /\
+  ends p_until {| e_inputs := [] |} 0 begun (Ok (finished [5])) /\
+  api_run 100 true p_until {| e_inputs := [] |} (init_machine p_until) = Ok (St [] true 0 (d_of [5]) [] []).
+Proof. exact ex_begin_until_proof. Qed.
+Print Assumptions ex_begin_until.
+
+Theorem ex_begin_while_repeat : compile 64 64 16
+  (bytes
+  (String.String (Ascii.Ascii false false false false true true false false)
+  (String.String (Ascii.Ascii false false false false false true false false)
+  (String.String (Ascii.Ascii false true false false false true true false)
+  (String.String (Ascii.Ascii true false true false false true true false)
+  (String.String (Ascii.Ascii true true true false false true true false)
+  (String.String (Ascii.Ascii true false false true false true true false)
+  (String.String (Ascii.Ascii false true true true false true true false)
+  (String.String (Ascii.Ascii false false false false false true false false)
+  (String.String (Ascii.Ascii false false true false false true true false)
+  (String.String (Ascii.Ascii true false true false true true true false)
+  (String.String (Ascii.Ascii false false false false true true true false)
+  (String.String (Ascii.Ascii false false false false false true false false)
+  (String.String (Ascii.Ascii true false true false true true false false)
+  (String.String (Ascii.Ascii false false false false false true false false)
+  (String.String (Ascii.Ascii false false true true true true false false)
+  (String.String (Ascii.Ascii false false false false false true false false)
+  (String.String (Ascii.Ascii true true true false true true true false)
+  (String.String (Ascii.Ascii false false false true false true true false)
+  (String.String (Ascii.Ascii true false false true false true true false)
+  (String.String (Ascii.Ascii false false true true false true true false)
+  (String.String (Ascii.Ascii true false true false false true true false)
+  (String.String
+  (Ascii.Ascii false false false false false true false false)
+  (String.String
+  (Ascii.Ascii true false false false true true false false)
+  (String.String
+  (Ascii.Ascii true true false true false true false false)
+  (String.String
+  (Ascii.Ascii false false false false false true false false)
+  (String.String
+  (Ascii.Ascii false true false false true true true false)
+  (String.String
+  (Ascii.Ascii true false true false false true true false)
+  (String.String
+  (Ascii.Ascii false false false false true true true
+  false)
+  (String.String
+  (Ascii.Ascii true false true false false true true
+  false)
+  (String.String
+  (Ascii.Ascii true false false false false true
+  true false)
+  (String.String
+  (Ascii.Ascii false false true false true
+  true true false) String.EmptyString)))))))))))))))))))))))))))))))) =
+  COk p_while /\
+  ends p_while {| e_inputs := [] |} 0 begun (Ok (finished [5])) /\
+  api_run 100 true p_while {| e_inputs := [] |} (init_machine p_while) = Ok (St [] true 0 (d_of [5]) [] []).
+Proof. exact ex_begin_while_repeat_proof. Qed.
+Print Assumptions ex_begin_while_repeat.
+
+Theorem ex_begin_again_exit : compile 64 64 16
+  (bytes
+  (String.String (Ascii.Ascii false true false true true true false false)
+  (String.String (Ascii.Ascii false false false false false true false false)
+  (String.String (Ascii.Ascii false true true false false true true false)
+  (String.String (Ascii.Ascii false false false false false true false false)
+  (String.String (Ascii.Ascii false false false false true true false false)
+  (String.String (Ascii.Ascii false false false false false true false false)
+  (String.String (Ascii.Ascii false true false false false true true false)
+  (String.String (Ascii.Ascii true false true false false true true false)
+  (String.String (Ascii.Ascii true true true false false true true false)
+  (String.String (Ascii.Ascii true false false true false true true false)
+  (String.String (Ascii.Ascii false true true true false true true false)
+  (String.String (Ascii.Ascii false false false false false true false false)
+  (String.String (Ascii.Ascii true false false false true true false false)
+  (String.String (Ascii.Ascii true true false true false true false false)
+  (String.String (Ascii.Ascii false false false false false true false false)
+  (String.String (Ascii.Ascii false false true false false true true false)
+  (String.String (Ascii.Ascii true false true false true true true false)
+  (String.String (Ascii.Ascii false false false false true true true false)
+  (String.String (Ascii.Ascii false false false false false true false false)
+  (String.String (Ascii.Ascii true false true false true true false false)
+  (String.String (Ascii.Ascii false false false false false true false false)
+  (String.String (Ascii.Ascii true false true true true true false false)
+  (String.String
+  (Ascii.Ascii false false false false false true false false)
+  (String.String
+  (Ascii.Ascii true false false true false true true false)
+  (String.String
+  (Ascii.Ascii false true true false false true true false)
+  (String.String
+  (Ascii.Ascii false false false false false true false false)
+  (String.String
+  (Ascii.Ascii true false true false false true true false)
+  (String.String
+  (Ascii.Ascii false false false true true true true
+  false)
+  (String.String
+  (Ascii.Ascii true false false true false true true
+  false)
+  (String.String
+  (Ascii.Ascii false false true false true true
+  true false)
+  (String.String
+  (Ascii.Ascii false false false false false
+  true false false)
+  (String.String
+  (Ascii.Ascii false false true false true
+  true true false)
+  (String.String
+  (Ascii.Ascii false false false true
+  false true true false)
+  (String.String
+  (Ascii.Ascii true false true false
+  false true true false)
+  (String.String
+  (Ascii.Ascii false true true
+  true false true true false)
+  (String.String
+  (Ascii.Ascii false false
+  false false false true false
+  false)
+  (String.String
+  (Ascii.Ascii true false false
+  false false true true false)
+  (String.String
+  (Ascii.Ascii true true true
+  false false true true false)
+  (String.String
+  (Ascii.Ascii true false false
+  false false true true false)
+  (String.String
+  (Ascii.Ascii true false false
+  true false true true false)
+  (String.String
+  (Ascii.Ascii false true true
+  true false true true false)
+  (String.String
+  (Ascii.Ascii false false
+  false false false true false
+  false)
+  (String.String
+  (Ascii.Ascii true true false
+  true true true false false)
+  (String.String
+  (Ascii.Ascii false false
+  false false false true false
+  false)
+  (String.String
+  (Ascii.Ascii false true true
+  false false true true false)
+  (String.String
+  (Ascii.Ascii false false
+  false false false true false
+  false)
+  (String.String
+  (Ascii.Ascii true false false
+  false true true false false)
+  (String.String
+  (Ascii.Ascii false false
+  false false true true false
+  false)
+  (String.String
+  (Ascii.Ascii false false
+  false false true true false
+  false) String.EmptyString)))))))))))))))))))))))))))))))))))))))))))))))))) =
+  COk p_again /\
+  ends p_again {| e_inputs := [] |} 0 begun (Ok (finished [100; 5])) /\
+  api_run 100 true p_again {| e_inputs := [] |} (init_machine p_again) = Ok (St [] true 0 (d_of [100; 5]) [] []).
+Proof. exact ex_begin_again_exit_proof. Qed.
+Print Assumptions ex_begin_again_exit.
+
+Theorem ex_if_else_then : forall (v : Z) (s : list Z),
+  zlen s < 64 ->
+  compile 64 64 16
+  (bytes
+  (String.String (Ascii.Ascii true false false true false true true false)
+  (String.String (Ascii.Ascii false true true false false true true false)
+  (String.String (Ascii.Ascii false false false false false true false false)
+  (String.String (Ascii.Ascii true false false false true true false false)
+  (String.String (Ascii.Ascii false false false false true true false false)
+  (String.String (Ascii.Ascii false false false false false true false false)
+  (String.String (Ascii.Ascii true false true false false true true false)
+  (String.String (Ascii.Ascii false false true true false true true false)
+  (String.String (Ascii.Ascii true true false false true true true false)
+  (String.String (Ascii.Ascii true false true false false true true false)
+  (String.String (Ascii.Ascii false false false false false true false false)
+  (String.String (Ascii.Ascii false true false false true true false false)
+  (String.String (Ascii.Ascii false false false false true true false false)
+  (String.String (Ascii.Ascii false false false false false true false false)
+  (String.String (Ascii.Ascii false false true false true true true false)
+  (String.String (Ascii.Ascii false false false true false true true false)
+  (String.String (Ascii.Ascii true false true false false true true false)
+  (String.String (Ascii.Ascii false true true true false true true false)
+  String.EmptyString))))))))))))))))))) = COk p_ifelse /\
+  ends p_ifelse {| e_inputs := [] |} 0 (St [0] true 0 (d_of (v :: s)) [(0, 0)] []) (Ok (finished ((if v =? 0 then 20 else 10) :: s))).
+Proof. exact ex_if_else_then_proof. Qed.
+Print Assumptions ex_if_else_then.
+
+Theorem ex_if_then : forall (v : Z) (s : list Z),
+  zlen s < 64 ->
+  compile 64 64 16
+  (bytes
+  (String.String (Ascii.Ascii true false false true false true true false)
+  (String.String (Ascii.Ascii false true true false false true true false)
+  (String.String (Ascii.Ascii false false false false false true false false)
+  (String.String (Ascii.Ascii true false false false true true false false)
+  (String.String (Ascii.Ascii false false false false true true false false)
+  (String.String (Ascii.Ascii false false false false false true false false)
+  (String.String (Ascii.Ascii false false true false true true true false)
+  (String.String (Ascii.Ascii false false false true false true true false)
+  (String.String (Ascii.Ascii true false true false false true true false)
+  (String.String (Ascii.Ascii false true true true false true true false) String.EmptyString))))))))))) =
+  COk p_ifthen /\
+  ends p_ifthen {| e_inputs := [] |} 0 (St [0] true 0 (d_of (v :: s)) [(0, 0)] []) (Ok (finished (if v =? 0 then s else 10 :: s))).
+Proof. exact ex_if_then_proof. Qed.
+Print Assumptions ex_if_then.
+
+Theorem ex_if_errors : ends p_ifthen {| e_inputs := [] |} 0 (St [0] true 0 (d_of []) [(0, 0)] []) (Ok (St [0] true E_underflow (d_of []) [(0, 1)] [])) /\
+  api_run 100 true p_ifthen {| e_inputs := [] |} (init_machine p_ifthen) = Ok (St [0] true E_underflow (d_of []) [(0, 1)] []) /\
+  (let p1 :=
+  {|
+  p_w := 64; p_segs := [[0; 1; 3; 67]; [0; 10]]; p_words := []; p_vars := []; p_ins := []; p_outs := []; p_stack_max := 64; p_rec_max := 1
+  |} in
+  compile 64 64 1
+  (bytes
+  (String.String (Ascii.Ascii true false false false true true false false)
+  (String.String (Ascii.Ascii false false false false false true false false)
+  (String.String (Ascii.Ascii true false false true false true true false)
+  (String.String (Ascii.Ascii false true true false false true true false)
+  (String.String (Ascii.Ascii false false false false false true false false)
+  (String.String (Ascii.Ascii true false false false true true false false)
+  (String.String (Ascii.Ascii false false false false true true false false)
+  (String.String (Ascii.Ascii false false false false false true false false)
+  (String.String (Ascii.Ascii false false true false true true true false)
+  (String.String (Ascii.Ascii false false false true false true true false)
+  (String.String (Ascii.Ascii true false true false false true true false)
+  (String.String (Ascii.Ascii false true true true false true true false) String.EmptyString))))))))))))) =
+  COk p1 /\
+  ends p1 {| e_inputs := [] |} 0 (St [0] true 0 (d_of [1]) [(0, 2)] []) (Ok (St [0] true E_recursion (d_of []) [(0, 4)] [])) /\
+  api_run 100 true p1 {| e_inputs := [] |} (init_machine p1) = Ok (St [0] true E_recursion (d_of []) [(0, 4)] [])).
+Proof. exact ex_if_errors_proof. Qed.
+Print Assumptions ex_if_errors.
+
+Theorem ex_i_j_k : forall (a b c : Z) (s : list Z),
+  zlen s < 60 ->
+  goes p_ijk {| e_inputs := [] |} 0 (St [0] true 0 (d_of s) [(0, 0); (9, 9)] [(5, 100, a); (4, 100, b); (3, 100, c)])
+  (St [0] true 0 (d_of (wrap 64 c :: wrap 64 b :: wrap 64 a :: s)) [(0, 3); (9, 9)] [(5, 100, a); (4, 100, b); (3, 100, c)]).
+Proof. exact ex_i_j_k_proof. Qed.
+Print Assumptions ex_i_j_k.
+
+Theorem ex_do_errors : let p :=
+  {| p_w := 64; p_segs := [[0; 1; 5; 67]; [29]]; p_words := []; p_vars := []; p_ins := []; p_outs := []; p_stack_max := 64; p_rec_max := 16 |}
+  in
+  compile 64 64 16
+  (bytes
+  (String.String (Ascii.Ascii true false false false true true false false)
+  (String.String (Ascii.Ascii false false false false false true false false)
+  (String.String (Ascii.Ascii false false true false false true true false)
+  (String.String (Ascii.Ascii true true true true false true true false)
+  (String.String (Ascii.Ascii false false false false false true false false)
+  (String.String (Ascii.Ascii true false false true false true true false)
+  (String.String (Ascii.Ascii false false false false false true false false)
+  (String.String (Ascii.Ascii false false true true false true true false)
+  (String.String (Ascii.Ascii true true true true false true true false)
+  (String.String (Ascii.Ascii true true true true false true true false)
+  (String.String (Ascii.Ascii false false false false true true true false) String.EmptyString)))))))))))) =
+  COk p /\
+  ends p {| e_inputs := [] |} 0 (St [0] true 0 (d_of [1]) [(0, 2)] []) (Ok (St [0] true E_underflow (d_of [1]) [(0, 3)] [])) /\
+  api_run 100 true p {| e_inputs := [] |} (init_machine p) = Ok (St [0] true E_underflow (d_of [1]) [(0, 3)] []) /\
+  (let q :=
+  {|
+  p_w := 64;
+  p_segs := [[0; 2; 0; 0; 5; 67]; [0; 2; 0; 0; 5; 68]; [29]];
+  p_words := [];
+  p_vars := [];
+  p_ins := [];
+  p_outs := [];
+  p_stack_max := 64;
+  p_rec_max := 1
+  |} in
+  ends q {| e_inputs := [] |} 0 (St [0] true 0 (d_of [0; 2]) [(1, 4); (0, 5)] [(1, 2, 0)])
+  (Ok (St [0] true E_recursion (d_of []) [(1, 5); (0, 5)] [(1, 2, 0)]))).
+Proof. exact ex_do_errors_proof. Qed.
+Print Assumptions ex_do_errors.
+
+(* REFUTED (standard Forth): 0 10 do i -1 +loop leaves nothing (Forth-2012: 10 9 .. 0) *)
+Theorem plus_loop_negative_step_refuted : compile 64 64 16
+  (bytes
+  (String.String (Ascii.Ascii false false false false true true false false)
+  (String.String (Ascii.Ascii false false false false false true false false)
+  (String.String (Ascii.Ascii true false false false true true false false)
+  (String.String (Ascii.Ascii false false false false true true false false)
+  (String.String (Ascii.Ascii false false false false false true false false)
+  (String.String (Ascii.Ascii false false true false false true true false)
+  (String.String (Ascii.Ascii true true true true false true true false)
+  (String.String (Ascii.Ascii false false false false false true false false)
+  (String.String (Ascii.Ascii true false false true false true true false)
+  (String.String (Ascii.Ascii false false false false false true false false)
+  (String.String (Ascii.Ascii true false true true false true false false)
+  (String.String (Ascii.Ascii true false false false true true false false)
+  (String.String (Ascii.Ascii false false false false false true false false)
+  (String.String (Ascii.Ascii true true false true false true false false)
+  (String.String (Ascii.Ascii false false true true false true true false)
+  (String.String (Ascii.Ascii true true true true false true true false)
+  (String.String (Ascii.Ascii true true true true false true true false)
+  (String.String (Ascii.Ascii false false false false true true true false)
+  String.EmptyString))))))))))))))))))) = COk p_negstep /\
+  ends p_negstep {| e_inputs := [] |} 0 begun (Ok (finished [])) /\
+  (exists mf : machine,
+  api_run 100 true p_negstep {| e_inputs := [] |} (init_machine p_negstep) = Ok mf /\
+  m_err mf = E_none /\ m_stack mf = [] /\ m_stack mf <> [0; 1; 2; 3; 4; 5; 6; 7; 8; 9; 10]).
+Proof. exact plus_loop_negative_step_refuted_proof. Qed.
+Print Assumptions plus_loop_negative_step_refuted.
+
+Theorem plus_loop_negative_step_runs_away : let p :=
+  {|
+  p_w := 64;
+  p_segs := [[0; 10; 0; 0; 6; 67]; [29; 0; -1]];
+  p_words := [];
+  p_vars := [];
+  p_ins := [];
+  p_outs := [];
+  p_stack_max := 8;
+  p_rec_max := 16
+  |} in
+  compile 64 8 16
+  (bytes
+  (String.String (Ascii.Ascii true false false false true true false false)
+  (String.String (Ascii.Ascii false false false false true true false false)
+  (String.String (Ascii.Ascii false false false false false true false false)
+  (String.String (Ascii.Ascii false false false false true true false false)
+  (String.String (Ascii.Ascii false false false false false true false false)
+  (String.String (Ascii.Ascii false false true false false true true false)
+  (String.String (Ascii.Ascii true true true true false true true false)
+  (String.String (Ascii.Ascii false false false false false true false false)
+  (String.String (Ascii.Ascii true false false true false true true false)
+  (String.String (Ascii.Ascii false false false false false true false false)
+  (String.String (Ascii.Ascii true false true true false true false false)
+  (String.String (Ascii.Ascii true false false false true true false false)
+  (String.String (Ascii.Ascii false false false false false true false false)
+  (String.String (Ascii.Ascii true true false true false true false false)
+  (String.String (Ascii.Ascii false false true true false true true false)
+  (String.String (Ascii.Ascii true true true true false true true false)
+  (String.String (Ascii.Ascii true true true true false true true false)
+  (String.String (Ascii.Ascii false false false false true true true false)
+  String.EmptyString))))))))))))))))))) = COk p /\
+  (exists mf : machine,
+  api_run 1000 true p {| e_inputs := [] |} (init_machine p) = Ok mf /\
+  m_err mf = E_overflow /\ m_stack mf = [-7; -6; -5; -4; -3; -2; -1; 0] /\ m_dos mf = [(-2, 10, -7)]).
+Proof. exact plus_loop_negative_step_runs_away_proof. Qed.
+Print Assumptions plus_loop_negative_step_runs_away.
+
+Theorem do_loop_empty_range : let p :=
+  {|
+  p_w := 64;
+  p_segs := [[0; 5; 0; 5; 5; 67]; [29]];
+  p_words := [];
+  p_vars := [];
+  p_ins := [];
+  p_outs := [];
+  p_stack_max := 64;
+  p_rec_max := 16
+  |} in
+  compile 64 64 16
+  (bytes
+  (String.String (Ascii.Ascii true false true false true true false false)
+  (String.String (Ascii.Ascii false false false false false true false false)
+  (String.String (Ascii.Ascii true false true false true true false false)
+  (String.String (Ascii.Ascii false false false false false true false false)
+  (String.String (Ascii.Ascii false false true false false true true false)
+  (String.String (Ascii.Ascii true true true true false true true false)
+  (String.String (Ascii.Ascii false false false false false true false false)
+  (String.String (Ascii.Ascii true false false true false true true false)
+  (String.String (Ascii.Ascii false false false false false true false false)
+  (String.String (Ascii.Ascii false false true true false true true false)
+  (String.String (Ascii.Ascii true true true true false true true false)
+  (String.String (Ascii.Ascii true true true true false true true false)
+  (String.String (Ascii.Ascii false false false false true true true false) String.EmptyString)))))))))))))) =
+  COk p /\
+  ends p {| e_inputs := [] |} 0 begun (Ok (finished [])) /\
+  api_run 100 true p {| e_inputs := [] |} (init_machine p) = Ok (St [] true 0 (d_of []) [] []).
+Proof. exact do_loop_empty_range_proof. Qed.
+Print Assumptions do_loop_empty_range.
+
+(* ---- typed reads (agent c19b-reads, Proofs_C19_Reads) *)
+From AwkForth Require Import Proofs_C19_Reads.
+
+(* ---- C19 part 3: the read instruction (exec_read).  Requires: From AwkForth Require Import Forth Proofs_C19 Proofs_C19_Reads.
+   Vocabulary (Proofs_C19_Reads): read_bc fmt be rep dir = the bytecode ~(fmt + READ_BIGENDIAN? + READ_REPEATED? + READ_DIRECT?);
+   pop_count rep m = Some (n, s): the repetition count n (1 when not repeated) and the stack s left after popping it;
+   after m0 stack inpos outs frames err = m0 with these five components replaced (variables, do-stack, targets, ready kept);
+   updated l l' i v = l' is l with position i replaced by v (determines l', read_updated_unique);
+   groups data pos size n = the n slices of `size` bytes at pos, pos+size, ... (read_groups_nth);
+   doc_decode size signed bigendian bs = sum byte_k*256^k (le_sum 0) or sum byte_k*256^(size-1-k) (be_sum), reinterpreted
+   in two's complement at 8*size bits (twos) when signed. *)
+
+(* the model's decode is the documented decoding, for every group of `size` bytes *)
+Theorem read_decode_spec : forall size signed bigendian bs, 0 < size -> zlen bs = size -> bytes_ok bs ->
+  decode size signed bigendian bs = doc_decode size signed bigendian bs.
+Proof. exact decode_spec_proof. Qed.
+Print Assumptions read_decode_spec.
+
+Theorem read_groups_nth : forall data pos size n k, 0 <= k < n ->
+  znth (groups data pos size n) k = Some (slice data (pos + k * size) size).
+Proof. exact groups_nth. Qed.
+Print Assumptions read_groups_nth.
+
+Theorem read_updated_unique : forall A (l l1 l2 : list A) i v, updated l l1 i v -> updated l l2 i v -> l1 = l2.
+Proof. exact updated_unique. Qed.
+Print Assumptions read_updated_unique.
+
+(* fixed-width formats (every row of fixed_format: ?-> b-> h-> i-> q-> n-> B-> H-> I-> Q-> N->), both byte orders,
+   single and repeated, to the stack: the n values are pushed in reading order, wrapped to the cell width; the position of
+   this input advances by n*size; nothing else changes except ip (+1, over the input number).  When the stack has room for
+   fewer than n cells exactly `room` values are pushed and the machine stops with stack_overflow — the input position has
+   nevertheless advanced over all n items. *)
+Theorem read_fixed_to_stack :
+  forall p e m0 which ip fr seg inp fmt size signed be rep n s data pos,
+  m_frames m0 = (which, ip) :: fr -> znth (p_segs p) which = Some seg -> znth seg ip = Some inp ->
+  fixed_format fmt = Some (size, signed) -> pop_count rep m0 = Some (n, s) -> 0 <= n ->
+  znth (e_inputs e) inp = Some data -> znth (m_inpos m0) inp = Some pos -> 0 <= pos -> bytes_ok data ->
+  n * size < 2 ^ 63 -> pos + n * size <= zlen data -> zlen s <= p_stack_max p ->
+  exists inpos', updated (m_inpos m0) inpos' inp (pos + n * size) /\
+    let vals := map (fun g => wrap (p_w p) (doc_decode size signed be g)) (groups data pos size n) in
+    let room := p_stack_max p - zlen s in
+    exec_read p e m0 (read_bc fmt be rep false) =
+      if n <=? room then Ok (Continue, after m0 (rev vals ++ s) inpos' (m_outs m0) ((which, ip + 1) :: fr) (m_err m0))
+      else Ok (Return, after m0 (rev (firstn (Z.to_nat room) vals) ++ s) inpos' (m_outs m0) ((which, ip + 1) :: fr) E_overflow).
+Proof. exact read_fixed_to_stack_proof. Qed.
+Print Assumptions read_fixed_to_stack.
+
+(* the same, directly to output o of dtype d: the converted values are appended (outputs are most-recent-first lists);
+   out_conv is (OUT)value = cast_out d, except that a bool item copied into a bool output keeps its byte (read_out_conv_cast) *)
+Theorem read_fixed_direct :
+  forall p e m0 which ip fr seg inp fmt size signed be rep n s data pos o d b,
+  m_frames m0 = (which, ip) :: fr -> znth (p_segs p) which = Some seg -> znth seg ip = Some inp ->
+  fixed_format fmt = Some (size, signed) -> pop_count rep m0 = Some (n, s) -> 0 <= n ->
+  znth (e_inputs e) inp = Some data -> znth (m_inpos m0) inp = Some pos -> 0 <= pos -> bytes_ok data ->
+  znth seg (ip + 1) = Some o -> out_dtype p o = Some d -> znth (m_outs m0) o = Some b ->
+  n * size < 2 ^ 63 -> pos + n * size <= zlen data ->
+  exists inpos' outs', updated (m_inpos m0) inpos' inp (pos + n * size) /\
+    updated (m_outs m0) outs' o
+            (rev (map (fun g => out_conv fmt d (doc_decode size signed be g)) (groups data pos size n)) ++ b) /\
+    exec_read p e m0 (read_bc fmt be rep true) = Ok (Continue, after m0 s inpos' outs' ((which, ip + 2) :: fr) (m_err m0)).
+Proof. exact read_fixed_direct_proof. Qed.
+Print Assumptions read_fixed_direct.
+
+Theorem read_out_conv_cast : forall fmt d v, (fmt <> READ_BOOL \/ d <> DBool \/ v = 0 \/ v = 1) -> out_conv fmt d v = cast_out d v.
+Proof. exact out_conv_cast. Qed.
+Print Assumptions read_out_conv_cast.
+
+(* read beyond the end of the input: read_beyond, NOTHING consumed or written; the repetition count stays popped and ip
+   has moved over the argument cells *)
+Theorem read_fixed_beyond :
+  forall p e m0 which ip fr seg inp fmt size signed be rep n s data pos dir o,
+  m_frames m0 = (which, ip) :: fr -> znth (p_segs p) which = Some seg -> znth seg ip = Some inp ->
+  fixed_format fmt = Some (size, signed) -> pop_count rep m0 = Some (n, s) -> 0 <= n ->
+  znth (e_inputs e) inp = Some data -> znth (m_inpos m0) inp = Some pos ->
+  (dir = true -> znth seg (ip + 1) = Some o) ->
+  n * size < 2 ^ 63 -> zlen data < pos + n * size ->
+  exec_read p e m0 (read_bc fmt be rep dir) =
+  Ok (Return, after m0 s (m_inpos m0) (m_outs m0) ((which, ip + (if dir then 2 else 1)) :: fr) E_read_beyond).
+Proof. exact read_fixed_beyond_proof. Qed.
+Print Assumptions read_fixed_beyond.
+
+(* EXCLUSION of the three theorems above: a byte count n*size of 2^63 or more overflows int64 in the C++ (undefined
+   behaviour); the model reports it as the fault F_count *)
+Theorem read_fixed_count_fault :
+  forall p e m0 which ip fr seg inp fmt size signed be rep n s data pos dir o,
+  m_frames m0 = (which, ip) :: fr -> znth (p_segs p) which = Some seg -> znth seg ip = Some inp ->
+  fixed_format fmt = Some (size, signed) -> pop_count rep m0 = Some (n, s) -> 0 <= n ->
+  znth (e_inputs e) inp = Some data -> znth (m_inpos m0) inp = Some pos ->
+  (dir = true -> znth seg (ip + 1) = Some o) ->
+  2 ^ 63 <= n * size -> exec_read p e m0 (read_bc fmt be rep dir) = Fault F_count.
+Proof. exact read_fixed_count_fault_proof. Qed.
+Print Assumptions read_fixed_count_fault.
+
+(* any repeated read (every format, also varint / zigzag / Nbit): empty stack = stack_underflow; a negative count is
+   refused with read_beyond (the count is popped; ip is only past the input number) *)
+Theorem read_underflow : forall p e m0 which ip fr seg inp,
+  m_frames m0 = (which, ip) :: fr -> znth (p_segs p) which = Some seg -> znth seg ip = Some inp ->
+  forall bc, Z.land (- bc - 1) READ_REPEATED <> 0 -> m_stack m0 = [] ->
+  exec_read p e m0 bc = Ok (Return, after m0 [] (m_inpos m0) (m_outs m0) ((which, ip + 1) :: fr) E_underflow).
+Proof. exact read_underflow_proof. Qed.
+Print Assumptions read_underflow.
+
+Theorem read_negative_count : forall p e m0 which ip fr seg inp,
+  m_frames m0 = (which, ip) :: fr -> znth (p_segs p) which = Some seg -> znth seg ip = Some inp ->
+  forall bc n s, Z.land (- bc - 1) READ_REPEATED <> 0 -> m_stack m0 = n :: s -> n < 0 ->
+  exec_read p e m0 bc = Ok (Return, after m0 s (m_inpos m0) (m_outs m0) ((which, ip + 1) :: fr) E_read_beyond).
+Proof. exact read_negative_count_proof. Qed.
+Print Assumptions read_negative_count.
+
+(* zigzag: (r >> 1) ^ -(r & 1) is the documented map even r -> r/2, odd r -> -(r+1)/2 *)
+Theorem read_zigzag_spec : forall r, zigzag r = zigzag_doc r.
+Proof. exact zigzag_spec_proof. Qed.
+Print Assumptions read_zigzag_spec.
+
+(* varint-> / zigzag-> (varint_fmt zz): varints_doc n bytes = (raw values in reading order, bytes consumed, E_none or the
+   error that ended the sequence), built from varint_head (leading bytes >= 128 closed by a byte < 128, value
+   sum (byte_k mod 128)*128^k, at most 9 bytes, varint_too_big at the 10th, read_beyond when the input ends inside an item).
+   On an error the items decoded before it ARE delivered and the bytes read so far ARE consumed. *)
+Theorem read_varint_direct :
+  forall p e m0 which ip fr seg inp zz be rep n s data pos o d b,
+  m_frames m0 = (which, ip) :: fr -> znth (p_segs p) which = Some seg -> znth seg ip = Some inp ->
+  pop_count rep m0 = Some (n, s) -> 0 <= n ->
+  znth (e_inputs e) inp = Some data -> znth (m_inpos m0) inp = Some pos -> 0 <= pos <= zlen data -> bytes_ok data ->
+  znth seg (ip + 1) = Some o -> out_dtype p o = Some d -> znth (m_outs m0) o = Some b ->
+  let r := varints_doc (Z.to_nat n) (skipn (Z.to_nat pos) data) in
+  exists inpos' outs', updated (m_inpos m0) inpos' inp (pos + vd_used r) /\
+    updated (m_outs m0) outs' o (rev (map (varint_out_value p zz d) (vd_vals r)) ++ b) /\
+    exec_read p e m0 (read_bc (varint_fmt zz) be rep true) =
+      if vd_err r =? E_none then Ok (Continue, after m0 s inpos' outs' ((which, ip + 2) :: fr) (m_err m0))
+      else Ok (Return, after m0 s inpos' outs' ((which, ip + 2) :: fr) (vd_err r)).
+Proof. exact read_varint_direct_proof. Qed.
+Print Assumptions read_varint_direct.
+
+(* to the stack, when there is room for n cells *)
+Theorem read_varint_to_stack :
+  forall p e m0 which ip fr seg inp zz be rep n s data pos,
+  m_frames m0 = (which, ip) :: fr -> znth (p_segs p) which = Some seg -> znth seg ip = Some inp ->
+  pop_count rep m0 = Some (n, s) -> 0 <= n ->
+  znth (e_inputs e) inp = Some data -> znth (m_inpos m0) inp = Some pos -> 0 <= pos <= zlen data -> bytes_ok data ->
+  zlen s + n <= p_stack_max p ->
+  let r := varints_doc (Z.to_nat n) (skipn (Z.to_nat pos) data) in
+  exists inpos', updated (m_inpos m0) inpos' inp (pos + vd_used r) /\
+    let stack := rev (map (varint_stack_value p zz) (vd_vals r)) ++ s in
+    exec_read p e m0 (read_bc (varint_fmt zz) be rep false) =
+      if vd_err r =? E_none then Ok (Continue, after m0 stack inpos' (m_outs m0) ((which, ip + 1) :: fr) (m_err m0))
+      else Ok (Return, after m0 stack inpos' (m_outs m0) ((which, ip + 1) :: fr) (vd_err r)).
+Proof. exact read_varint_to_stack_proof. Qed.
+Print Assumptions read_varint_to_stack.
+
+(* a full stack: the item is decoded first — its bytes are consumed — then stack_overflow, nothing pushed *)
+Theorem read_varint_overflow :
+  forall p e m0 which ip fr seg inp zz be rep n s data pos v u,
+  m_frames m0 = (which, ip) :: fr -> znth (p_segs p) which = Some seg -> znth seg ip = Some inp ->
+  pop_count rep m0 = Some (n, s) -> 1 <= n ->
+  znth (e_inputs e) inp = Some data -> znth (m_inpos m0) inp = Some pos -> 0 <= pos <= zlen data -> bytes_ok data ->
+  zlen s = p_stack_max p -> varint_head (skipn (Z.to_nat pos) data) = VOk v u ->
+  exists inpos', updated (m_inpos m0) inpos' inp (pos + u) /\
+    exec_read p e m0 (read_bc (varint_fmt zz) be rep false) =
+      Ok (Return, after m0 s inpos' (m_outs m0) ((which, ip + 1) :: fr) E_overflow).
+Proof. exact read_varint_overflow_proof. Qed.
+Print Assumptions read_varint_overflow.
+
+(* Nbit-> (argument cells: input, bit width, [output]): widths outside 1..31 are undefined behaviour in the C++ (F_nbit);
+   a zero count reads nothing; an exhausted input is read_beyond with nothing consumed.  (The values delivered by a
+   successful N-bit read are NOT specified here: see read_nbit_example for a run.) *)
+Theorem read_nbit_edges_partial :
+  forall p e m0 which ip fr seg inp be rep dir n s bw o data pos,
+  m_frames m0 = (which, ip) :: fr -> znth (p_segs p) which = Some seg -> znth seg ip = Some inp ->
+  znth seg (ip + 1) = Some bw -> (dir = true -> znth seg (ip + 2) = Some o) ->
+  pop_count rep m0 = Some (n, s) -> 0 <= n ->
+  let F := (which, ip + (if dir then 3 else 2)) :: fr in
+  (bw < 1 \/ 31 < bw -> exec_read p e m0 (read_bc READ_NBIT be rep dir) = Fault F_nbit) /\
+  (1 <= bw <= 31 -> n = 0 ->
+   exec_read p e m0 (read_bc READ_NBIT be rep dir) = Ok (Continue, after m0 s (m_inpos m0) (m_outs m0) F (m_err m0))) /\
+  (1 <= bw <= 31 -> 1 <= n -> znth (e_inputs e) inp = Some data -> znth (m_inpos m0) inp = Some pos -> zlen data <= pos ->
+   exec_read p e m0 (read_bc READ_NBIT be rep dir) = Ok (Return, after m0 s (m_inpos m0) (m_outs m0) F E_read_beyond)).
+Proof. exact read_nbit_edges_proof. Qed.
+Print Assumptions read_nbit_edges_partial.
+
+(* the compiler: every word of input_parser_words (reader_table lists them in order with format / big-endian / repeated;
+   the float words are CUnsupported) is compiled to read_bc of its row; Nbit words carry the width *)
+Theorem read_parse_reader_table :
+  map fst reader_table = input_parser_words /\ Forall reader_row_ok reader_table /\ nbit_words_ok.
+Proof. exact parse_reader_table_proof. Qed.
+Print Assumptions read_parse_reader_table.
